@@ -11,8 +11,8 @@ from sim.harness import draw_knobs
 
 ID = "C03"
 LEVEL = "exploration"
-RUNS = {"quick": 6000, "thorough": 150000}
-WALL_CAP = {"quick": 120, "thorough": 3000}
+RUNS = {"quick": 6000, "thorough": 200000}       # ~25 ms CPU per run (fork + boot + ~12 simulated s)
+WALL_CAP = {"quick": 90, "thorough": 1500}
 RULE = ("one case = one generated timeline (6-34 ops) of switch reports (raw by number / raw by name / logical, "
         "toggles, duplicates), handler add/remove (hold times 0/1/50/250/1000 ms or 'the current gap' +-1, some "
         "nested inside handler callbacks, some registered twice) and is_active/is_inactive queries on 1-3 of six "
